@@ -90,6 +90,17 @@ Cross(S) == IF Present(S) # Tn THEN {} ELSE
               { X \in UNION { { [S EXCEPT !["t1"] = A["t1"], !["t2"] = B["t2"]] : B \in InPlace(S, "t2") } : A \in Rebuilds(S, "t1") }
                      \cup UNION { { [S EXCEPT !["t2"] = A["t2"], !["t1"] = B["t1"]] : B \in InPlace(S, "t1") } : A \in Rebuilds(S, "t2") } : WF(X) }
 
+\* compound edits on ONE table: a column added in place together with any second edit of that table - the planner decides per table whether
+\* ALTER TABLE suffices or the table must be rebuilt, from ALL of its changes (sqlite/migrate.go: alterable)
+Second(M, t) == { X \in DropColumnS(M) \cup ModColumnS(M) \cup AddColumnS(M) \cup DropIndexS(M) \cup SetPKS(M)
+                        \cup AddFKS(M) \cup DropFKS(M) \cup ModFKS(M) \cup AddChkS(M) \cup DropChkS(M) \cup ModChkS(M) \cup OptionS(M)
+                   : X[t] # M[t] /\ (\A u \in Tn \ {t} : X[u] = M[u]) /\ WF(X) }
+\* the net effect must itself be admissible on a populated table (e.g. "add with default, then drop the default" is an inadmissible add)
+NetOK(S, R) == \A t \in Present(S) \cap Present(R) :
+                 /\ \A c \in Cols(R[t]) \ Cols(S[t]) : Addable(R[t].cols[c]) /\ (\A k \in DOMAIN R[t].pk : R[t].pk[k] # c)   \* every row takes the same value: not a key
+                 /\ \A c \in Cols(R[t]) \cap Cols(S[t]) : R[t].cols[c] = S[t].cols[c] \/ ModOK(S[t].cols[c], R[t].cols[c])
+SameTable(S) == { R \in UNION { UNION { Second(M, t) \ {S} : M \in { X \in AddColumnS(S) : X[t] # S[t] /\ WF(X) } } : t \in Present(S) } : NetOK(S, R) }
+
 \* ---- row semantics of an edit (C05): which column values must survive ----------------------------------
 \* a column survives in table t iff it is stored, present before and after, and has the same type
 Survives(S, R, t) == { c \in Stored(S[t]) \cap Stored(R[t]) : S[t].cols[c].type = R[t].cols[c].type }
